@@ -75,36 +75,39 @@ def run(chk):
     for key, cs in byproto.items():
         head += cs if len(cs) <= pcap else rng.sample(cs, pcap)
     chk.count('header sweep', len(head))
-    lines = [materialise(*c) for c in head + body]
-    impl = impl_run(chk.harness, lines, timeout=120.0)
-    chk.evals += len(lines)
-    chk.count('count-field sweep', len(lines))
+    cands = head + body
     worst = (0, '')
-    for a, o in zip(lines, impl):
-        if o in ('hang', 'crash', 'panic'):
-            chk.record('scopeA', dict(concrete=True, input=a[:30000], impl=o,
-                       what='the process did not survive a datagram with a hostile count/length field'), {})
-            continue
-        steps = split_steps(o)
-        if not steps:
-            continue
-        f = steps[-1].split(' ')
-        try:
-            delta, ln, w = (int(x[1:], 16) for x in f[:3])
-        except Exception:
-            continue
-        budget = 16 * 2 ** 20 + 256 * ln * (1 + w)
-        if delta > 4096:
-            chk.nontrivial.add(hashlib.sha1(a.encode()).digest()[:8])
-        if delta > worst[0]:
-            worst = (delta, a)
-        if delta > budget:
-            chk.record('scopeA', dict(concrete=True, input=a[:30000], impl=o[-200:], allocated=delta, budget=budget,
-                       what='decoding one datagram allocated more than 16 MiB + 256 x length x (1 + W)'), {})
+    # in batches: a line carries its whole history, so only one batch of lines is alive at a time
+    for b0 in range(0, len(cands), 20000):
+        lines = [materialise(*c) for c in cands[b0:b0 + 20000]]
+        impl = impl_run(chk.harness, lines, timeout=120.0)
+        chk.evals += len(lines)
+        for a, o in zip(lines, impl):
+            if o in ('hang', 'crash', 'panic'):
+                chk.record('scopeA', dict(concrete=True, input=a[:30000], impl=o,
+                           what='the process did not survive a datagram with a hostile count/length field'), {})
+                continue
+            steps = split_steps(o)
+            if not steps:
+                continue
+            f = steps[-1].split(' ')
+            try:
+                delta, ln, w = (int(x[1:], 16) for x in f[:3])
+            except Exception:
+                continue
+            budget = 16 * 2 ** 20 + 256 * ln * (1 + w)
+            if delta > 4096:
+                chk.nontrivial.add(hashlib.sha1(a.encode()).digest()[:8])
+            if delta > worst[0]:
+                worst = (delta, a)
+            if delta > budget:
+                chk.record('scopeA', dict(concrete=True, input=a[:30000], impl=o[-200:], allocated=delta, budget=budget,
+                           what='decoding one datagram allocated more than 16 MiB + 256 x length x (1 + W)'), {})
+    chk.count('count-field sweep', len(body))
     chk.notes.append('largest allocation observed for one datagram: %d bytes' % worst[0])
     chk.samples.append(dict(stream='sweep', worst_allocation=worst[0], input=worst[1][-600:]))
     # fidelity on a sample of the same inputs
-    sample = rng.sample(lines, min(len(lines), dict(quick=1500, thorough=20000)[chk.tier]))
+    sample = [materialise(*c) for c in rng.sample(cands, min(len(cands), dict(quick=1500, thorough=20000)[chk.tier]))]
     pl = ['pipe' + a[5:] for a in sample]
     i2 = impl_run(chk.harness, pl, timeout=120.0)
     m2 = model_run('C06', pl)
